@@ -21,8 +21,8 @@ RULE = (
     "event, expected outcome) tuples where at least one key matches the event"
 )
 BOUNDS = {
-    "quick": "leaf key sets |K|<=3; (leaf,parent) pairs |K|<=2 x |K|<=1; 23 event types; sync+async",
-    "thorough": "leaf key sets |K|<=4; (leaf,parent) pairs |K|<=2 x |K|<=2; 23 event types; sync+async",
+    "quick": "leaf key sets |K|<=3; (leaf,parent) pairs |K|<=2 x |K|<=1; (leaf,parent,root) triples |K|<=1 x |K|<=1 x |K|=1; 25 event types; sync+async",
+    "thorough": "leaf key sets |K|<=4; (leaf,parent) pairs |K|<=2 x |K|<=2; (leaf,parent,root) triples |K|<=2 x |K|<=1 x |K|=1; 25 event types; sync+async",
 }
 ASSUMPTIONS = ["segment alphabet of two letters, words up to three segments"]
 ENGINES = ("sync", "async")
@@ -91,7 +91,11 @@ def make_cfg(levels: List[Dict[str, str]]) -> Dict[str, Any]:
     parent = {"initial": "leaf", "states": {"leaf": leaf}}
     if len(levels) > 1:
         parent["on"] = on_of(1, levels[1])
-    return {"id": "m", "initial": "p", "states": {"p": parent}}
+    root: Dict[str, Any] = {"id": "m", "initial": "p", "states": {"p": parent}}
+    if len(levels) > 2:
+        # third level: the handlers of the machine root itself
+        root["on"] = on_of(2, levels[2])
+    return root
 
 
 def variants(spec_keys: Tuple[str, ...]) -> List[Dict[str, str]]:
@@ -131,6 +135,14 @@ def units(tier: str) -> List[Any]:
             for pn in range(1, pmax + 1):
                 for ps in itertools.combinations(KEYS, pn):
                     push(("pair", ks, ps))
+    # three levels (leaf, parent, machine root): the walk up the ancestor chain continues past the parent
+    tmax = 1 if tier == "quick" else 2
+    for n in range(0, tmax + 1):
+        for ks in itertools.combinations(KEYS, n):
+            for pn in range(0, 2):
+                for ps in itertools.combinations(KEYS, pn):
+                    for g in KEYS:
+                        push(("triple", ks, (ps, (g,))))
     if batch:
         us.append(list(batch))
     return us
@@ -143,6 +155,15 @@ def never(ctx, ev, params=None):
 def run_case(kind, ks, ps, res, viol):
     if kind == "leaf":
         level_sets = [[v] for v in variants(ks)]
+    elif kind == "triple":
+        ps, gs = ps
+        okp, okg = {k: "ok" for k in ps}, {k: "ok" for k in gs}
+        level_sets = [[v, okp, okg] for v in variants(ks)]
+        for pv in variants(ps)[1:]:
+            level_sets.append([{k: "ok" for k in ks}, pv, okg])
+        for gv in variants(gs)[1:]:
+            level_sets.append([{k: "ok" for k in ks}, okp, gv])
+        ps = ()
     else:
         level_sets = [[v, {k: "ok" for k in ps}] for v in variants(ks)]
         # parent-level variants too (null / false on the parent)
@@ -196,8 +217,9 @@ def run_unit(batch):
     res["states"] = res["executions"]
     res["transitions"] = res["evaluations"]
     kind, ks, ps = batch[0]
-    res["samples"].append(dict(kind=kind, leaf_keys=list(ks), parent_keys=list(ps), events=EVENTS[:6] + ["..."],
-                               expected={et: ref_fire([{k: 'ok' for k in ks}] + ([{k: 'ok' for k in ps}] if ps else []), et) for et in EVENTS[:6]}))
+    upper = [ps[0], ps[1]] if kind == "triple" else ([ps] if ps else [])
+    res["samples"].append(dict(kind=kind, leaf_keys=list(ks), upper_keys=[list(u) for u in upper], events=EVENTS[:6] + ["..."],
+                               expected={et: ref_fire([{k: 'ok' for k in ks}] + [{k: 'ok' for k in u} for u in upper], et) for et in EVENTS[:6]}))
     return res
 
 
